@@ -93,3 +93,71 @@ Section Dispatch.
         * dstep. eexists. repeat split; reflexivity.
   Qed.
 End Dispatch.
+
+(* ---------------------------------------------------------------- runPacketCallBack(data, size, timestamp, is_difop, is_frame_begin) *)
+(* the record handed to the packet callback: regenerated statement tree, interpreted; it is the model's run_pkt_cb: a record is made
+   only when a callback is registered, it carries the arguments, the next packet number (consumed only then, wrapping at 2^32) and a
+   copy of exactly `size` bytes, and every field is set before the callback sees it *)
+Record rm := mk_rm {
+  r_v : drv; r_out : list out;
+  r_ts : option Z; r_difop : option bool; r_begin : option bool; r_seq : option Z; r_fid : bool;
+  r_len : option Z; r_data : option bytes
+}.
+Inductive rtag := RDecl | RTs | RDifop | RBegin | RSeq | RFid | RResize | RCopy | RCall.
+Definition rtag_of (t : string) : option rtag :=
+  if (t =? "Packet pkt")%string then Some RDecl
+  else if (t =? "pkt.timestamp = timestamp")%string then Some RTs
+  else if (t =? "pkt.is_difop = is_difop")%string then Some RDifop
+  else if (t =? "pkt.is_frame_begin = is_frame_begin")%string then Some RBegin
+  else if (t =? "pkt.seq = pkt_seq_++")%string then Some RSeq
+  else if (t =? "pkt.frame_id = driver_param_.frame_id")%string then Some RFid
+  else if (t =? "pkt.buf_.resize(data_size)")%string then Some RResize
+  else if (t =? "memcpy (pkt.buf_.data(), data, data_size)")%string then Some RCopy
+  else if (t =? "cb_put_pkt_(pkt)")%string then Some RCall
+  else None.
+
+Section PktCb.
+  Variables (data : bytes) (ts : Z) (is_difop begin_ : bool).
+  Definition r_act (g : rtag) (m : rm) : option rm :=
+    let v := r_v m in
+    match g with
+    | RDecl => Some (mk_rm v (r_out m) None None None None false None None)
+    | RTs => Some (mk_rm v (r_out m) (Some ts) (r_difop m) (r_begin m) (r_seq m) (r_fid m) (r_len m) (r_data m))
+    | RDifop => Some (mk_rm v (r_out m) (r_ts m) (Some is_difop) (r_begin m) (r_seq m) (r_fid m) (r_len m) (r_data m))
+    | RBegin => Some (mk_rm v (r_out m) (r_ts m) (r_difop m) (Some begin_) (r_seq m) (r_fid m) (r_len m) (r_data m))
+    | RSeq =>
+        let v' := set_open v (v_dec v) (v_open_buf v) (v_open v) ((v_pkt_seq v + 1) mod 4294967296) (v_cloud_seq v) (v_answers v) (v_fresh v) in
+        Some (mk_rm v' (r_out m) (r_ts m) (r_difop m) (r_begin m) (Some (v_pkt_seq v)) (r_fid m) (r_len m) (r_data m))
+    | RFid => Some (mk_rm v (r_out m) (r_ts m) (r_difop m) (r_begin m) (r_seq m) true (r_len m) (r_data m))
+    | RResize => Some (mk_rm v (r_out m) (r_ts m) (r_difop m) (r_begin m) (r_seq m) (r_fid m) (Some (blen data)) (r_data m))
+    | RCopy => match r_len m with
+               | Some n => if n =? blen data then Some (mk_rm v (r_out m) (r_ts m) (r_difop m) (r_begin m) (r_seq m) (r_fid m) (r_len m) (Some data)) else None
+               | None => None       (* a copy into a buffer that was not sized *)
+               end
+    | RCall => match r_ts m, r_difop m, r_begin m, r_seq m, r_data m with
+               | Some t, Some d, Some b, Some s, Some bs => if r_fid m then Some (mk_rm v (r_out m ++ [OPkt s d b t bs]) (r_ts m) (r_difop m) (r_begin m) (r_seq m) (r_fid m) (r_len m) (r_data m)) else None
+               | _, _, _, _, _ => None   (* the callback would see a field that was never set *)
+               end
+    end.
+  Definition r_atom (t : string) (m : rm) : option rm := match rtag_of t with Some g => r_act g m | None => None end.
+  Definition r_cond (t : string) (m : rm) : option bool := if (t =? "cb_put_pkt_")%string then Some (c_pkt_cb (v_cfg (r_v m))) else None.
+  Definition rrun (effs : list eff) (m : rm) := run rm r_atom r_cond 14 effs m.
+
+  Ltac rtags :=
+    match goal with
+    | |- context [r_atom ?t ?m] => let g := eval vm_compute in (rtag_of t) in change (r_atom t m) with (match g with Some g' => r_act g' m | None => None end); cbv beta iota
+    end.
+  Ltac rstep := repeat first [ rewrite run_eq; cbv beta iota | rtags | progress cbn [r_act r_v r_out r_ts r_difop r_begin r_seq r_fid r_len r_data] ].
+
+  Theorem runPacketCallBack_code_is_model v :
+    exists m, rrun LidarDriverImpl_runPacketCallBack_effects (mk_rm v [] None None None None false None None) = Go m /\
+              (r_v m, r_out m) = run_pkt_cb v data ts is_difop begin_.
+  Proof.
+    unfold LidarDriverImpl_runPacketCallBack_effects, rrun, run_pkt_cb.
+    rewrite run_eq; cbv beta iota.
+    change (r_cond "cb_put_pkt_" ?m) with (Some (c_pkt_cb (v_cfg (r_v m)))). cbn [r_v].
+    destruct (c_pkt_cb (v_cfg v)).
+    - rstep. rewrite Z.eqb_refl. rstep. eexists. split; reflexivity.
+    - rstep. eexists. split; reflexivity.
+  Qed.
+End PktCb.
